@@ -9,8 +9,8 @@
 EXTENDS ChessText, Json, IOUtils, TLCExt
 
 Rec == ndJsonDeserialize(IOEnv.TRACE)
-VARIABLES l, due, clean, sess, wantUci, ids, resync
-tvars == <<pos, l, due, clean, sess, wantUci, ids, resync>>
+VARIABLES l, due, clean, sess, wantUci, ids, resync, armed
+tvars == <<pos, l, due, clean, sess, wantUci, ids, resync, armed>>
 ToSetOf(seq) == { seq[i] : i \in 1..Len(seq) }
 Norm(p) == [board |-> p.board, stm |-> p.stm, castle |-> ToSetOf(p.castle), ep |-> p.ep, half |-> p.half, full |-> p.full]
 Diag(prop, ok, what) == IF ok THEN TRUE ELSE PrintT(<<"DIAG", ToJson([prop |-> prop, l |-> l, what |-> what])>>)
@@ -27,10 +27,13 @@ Play(p, mvs, i) == IF i > Len(mvs) THEN [ok |-> TRUE, p |-> p]
 TSession ==
   /\ IsEvent("Session")
   /\ pos' = StartPos /\ due' = <<>> /\ clean' = TRUE /\ sess' = [wellformed |-> Rec[l].wellformed, id |-> Rec[l].id, pacing |-> Rec[l].pacing]
-  /\ wantUci' = FALSE /\ ids' = 0 /\ resync' = FALSE
+  /\ wantUci' = FALSE /\ ids' = 0 /\ resync' = FALSE /\ armed' = FALSE
 
+\* a go with a long time limit on an open position that is not answered from the book arms the
+\* "isready even while a search runs" clause: the next readyok has to come before that search's bestmove
 TIn ==
   /\ IsEvent("In")
+  /\ armed' = (IF Rec[l].kind = "go" /\ "long" \in DOMAIN Rec[l] THEN (LegalPosition(pos) /\ Legal(pos) # {}) ELSE IF Rec[l].kind \in {"stop", "quit", "eof", "position", "ucinewgame"} THEN FALSE ELSE armed)
   /\ LET e == Rec[l] IN
      CASE e.kind = "position" ->
             IF ~e.valid THEN /\ resync' = TRUE /\ due' = MarkAll(due) /\ UNCHANGED <<pos, clean, sess, wantUci, ids>>
@@ -52,10 +55,14 @@ TState ==
        IF resync THEN /\ pos' = (IF e.seen THEN Norm(e.pos) ELSE pos) /\ resync' = FALSE
        ELSE /\ Diag(P, e.seen /\ Concat(e.fen) = ToFen(pos), [kind |-> "engine's current position differs from the one the rules define", expected |-> ToFen(pos), got |-> Concat(e.fen), session |-> sess.id])
             /\ UNCHANGED <<pos, resync>>
-  /\ UNCHANGED <<due, clean, sess, wantUci, ids>>
+  /\ UNCHANGED <<due, clean, sess, wantUci, ids, armed>>
 
 TOut ==
   /\ IsEvent("Out")
+  /\ (IF Rec[l].kind = "bestmove" /\ armed
+      THEN Diag(P, FALSE, [kind |-> "isready was not answered while the search was running (readyok only after the bestmove)", session |-> sess.id])
+      ELSE TRUE)
+  /\ armed' = (IF Rec[l].kind \in {"readyok", "bestmove", "book"} THEN FALSE ELSE armed)
   /\ LET e == Rec[l] IN
      CASE e.kind = "bestmove" ->
             IF due = <<>> THEN /\ Diag(P, FALSE, [kind |-> "bestmove that no go was waiting for", mv |-> Concat(e.mv), session |-> sess.id]) /\ UNCHANGED <<due, wantUci, ids>>
@@ -73,28 +80,28 @@ TOut ==
 TWaitEnd ==
   /\ IsEvent("WaitEnd")
   /\ Diag(P, due = <<>>, [kind |-> "no bestmove although the search's limit was reached", pos |-> (IF due # <<>> THEN ToFen(due[1].p) ELSE ""), session |-> sess.id])
-  /\ due' = <<>> /\ UNCHANGED <<pos, clean, sess, wantUci, ids, resync>>
+  /\ due' = <<>> /\ UNCHANGED <<pos, clean, sess, wantUci, ids, resync, armed>>
 
 TSearchStart ==
   /\ IsEvent("SearchStart")
   /\ LET e == Rec[l] IN
        Diag("C18", clean => (e.fresh /\ e.history_len <= 0 /\ e.table_entries <= 0),
             [kind |-> "first search after ucinewgame started with a used search memory", history_len |-> e.history_len, table_entries |-> e.table_entries, session |-> sess.id])
-  /\ clean' = FALSE /\ UNCHANGED <<pos, due, sess, wantUci, ids, resync>>
+  /\ clean' = FALSE /\ UNCHANGED <<pos, due, sess, wantUci, ids, resync, armed>>
 
 THang ==
   /\ IsEvent("Hang")
   /\ Diag(P, FALSE, [kind |-> "no readyok: the engine stopped answering", after |-> Rec[l].after, session |-> sess.id])
-  /\ due' = <<>> /\ UNCHANGED <<pos, clean, sess, wantUci, ids, resync>>
+  /\ due' = <<>> /\ UNCHANGED <<pos, clean, sess, wantUci, ids, resync, armed>>
 
 TExit ==
   /\ IsEvent("Exit")
   /\ LET e == Rec[l] IN
        /\ Diag(P, e.status = 0, [kind |-> "process did not exit with status 0", status |-> e.status, stderr |-> e.stderr, session |-> sess.id])
        /\ Diag(P, due = <<>> \/ e.status # 0, [kind |-> "go never answered by a bestmove", pos |-> (IF due # <<>> THEN ToFen(due[1].p) ELSE ""), session |-> sess.id])
-  /\ due' = <<>> /\ UNCHANGED <<pos, clean, sess, wantUci, ids, resync>>
+  /\ due' = <<>> /\ UNCHANGED <<pos, clean, sess, wantUci, ids, resync, armed>>
 
-TraceInit == l = 1 /\ pos = StartPos /\ due = <<>> /\ clean = TRUE /\ sess = [wellformed |-> TRUE, id |-> 0, pacing |-> ""] /\ wantUci = FALSE /\ ids = 0 /\ resync = FALSE
+TraceInit == l = 1 /\ pos = StartPos /\ due = <<>> /\ clean = TRUE /\ sess = [wellformed |-> TRUE, id |-> 0, pacing |-> ""] /\ wantUci = FALSE /\ ids = 0 /\ resync = FALSE /\ armed = FALSE
 TraceNext == TSession \/ TIn \/ TState \/ TOut \/ TWaitEnd \/ TSearchStart \/ THang \/ TExit
 Accepted == IF TLCGet("stats").diameter - 1 = Len(Rec) THEN PrintT(<<"ACCEPTED", Len(Rec)>>)
             ELSE PrintT(<<"STUCK", TLCGet("stats").diameter, Len(Rec)>>)
